@@ -12,9 +12,11 @@ import (
 func Timeout(timeout time.Duration) func(message.HandlerFunc) message.HandlerFunc {
 	return func(h message.HandlerFunc) message.HandlerFunc {
 		return func(msg *message.Message) ([]*message.Message, error) {
-			ctx, cancel := context.WithTimeout(msg.Context(), timeout)
+			prevCtx := msg.Context()
+			ctx, cancel := context.WithTimeout(prevCtx, timeout)
 			defer func() {
 				cancel()
+				msg.SetContext(prevCtx)
 			}()
 
 			msg.SetContext(ctx)
